@@ -851,8 +851,8 @@ func (x *aeadWorker) rep(r int) string {
 	for it := 0; it < x.w.Iter; it++ {
 		pt := vk.Expand(x.w.Seed+uint64(r)*104729+uint64(it)*7919, x.w.PtLen)
 		sealed := x.a.Seal(bytes.Clone(x.pre), x.nonce, pt, x.aad)
-		if it%8 == 0 {
-			yield(x.w.Yield)
+		if it%8 == 0 { // keeps the repetition open long enough for the other users of the same object to arrive
+			x.w.pause()
 		}
 		ct := sealed[min(len(x.pre), len(sealed)):]
 		back, err := x.a.Open(nil, x.nonce, ct, x.aad)
@@ -881,9 +881,6 @@ func (x *aeadWorker) rep(r int) string {
 			firstOdd = " first unexpected iteration: " + line
 		}
 		all.WriteString(line + "\n")
-	}
-	if x.w.SleepUs > 0 && r%2 == 0 {
-		time.Sleep(time.Duration(x.w.SleepUs) * time.Microsecond)
 	}
 	return fmt.Sprintf("%s shared-AEAD: iterations=%d roundTrips=%d forgeriesRejected=%d/%d digest=%s%s",
 		aeadVariants[x.w.Variant].name, x.w.Iter, ok, dRej, damaged, sum([]byte(all.String())), firstOdd)
